@@ -192,4 +192,1204 @@ theorem C07_pragma_callee_one_word (c name : List Char) (h : pragmaOfComment c =
     name ≠ [] ∧ ∀ x ∈ name, isUnicodeWs x = false :=
   C15_scan_result_is_one_word c name h
 
+/-! ## No JSX in the output: every builder of the lowering preserves JSX-freeness -/
+
+theorem NoJsxL_iff (l : List Node) : NoJsxL l = true ↔ ∀ x ∈ l, NoJsx x = true := by
+  induction l with
+  | nil => simp [NoJsxL]
+  | cons a r ih => simp [NoJsxL, ih]
+
+theorem NoJsxL_append (a b : List Node) : NoJsxL (a ++ b) = (NoJsxL a && NoJsxL b) := by
+  induction a with
+  | nil => simp [NoJsxL]
+  | cons x r ih => simp [NoJsxL, ih, Bool.and_assoc]
+
+theorem NoJsxL_map {α : Type} (f : α → Node) (l : List α) (h : ∀ x ∈ l, NoJsx (f x) = true) : NoJsxL (l.map f) = true := by
+  rw [NoJsxL_iff]; intro y hy; simp only [List.mem_map] at hy; obtain ⟨x, hx, rfl⟩ := hy; exact h x hx
+
+theorem NoJsx_kids {k : K} {as : List String} {ks : List Node} (h : NoJsx (.mk k as ks) = true) : NoJsxL ks = true := by
+  simp only [NoJsx, Bool.and_eq_true] at h; exact h.2
+
+theorem NoJsx_mk (k : K) (as : List String) (ks : List Node) (hk : isJsxSyntax k = false) (h : NoJsxL ks = true) :
+    NoJsx (.mk k as ks) = true := by
+  simp [NoJsx, hk, h]
+
+/-! ### sub-terms of a JSX-free expression -/
+
+theorem arrayElems_NoJsx (e : Node) (elems : List Node) (h : NoJsx e = true) (ha : arrayElems e = some elems) : NoJsxL elems = true := by
+  unfold arrayElems at ha
+  split at ha
+  · injection ha with ha; subst ha
+    have := NoJsx_kids h
+    simp only [NoJsxL, Bool.and_true] at this
+    exact NoJsx_kids this
+  · simp at ha
+
+theorem plainElem_NoJsx (elems : List Node) (i : Nat) (x : Node) (h : NoJsxL elems = true) (hp : plainElem elems i = some x) : NoJsx x = true := by
+  unfold plainElem at hp
+  split at hp
+  · rename_i as e heq
+    injection hp with hp; subst hp
+    have hm : Node.mk .arg as [e] ∈ elems := List.mem_of_getElem? heq
+    have := (NoJsxL_iff elems).mp h _ hm
+    have := NoJsx_kids this
+    simpa [NoJsxL] using this
+  · simp at hp
+
+/-- an attribute value as the visitor leaves it: absent, a string, or `{e}` with `e` already JSX-free
+    (`a={}` is rejected by the parser) -/
+def ValOk (v : Node) : Bool :=
+  match v with
+  | .mk .none _ _ => true
+  | .mk .str _ [] => true
+  | .mk .jsxExprContainer _ [e] => NoJsx e
+  | .mk .jsxElement _ _ => true        -- an element written directly as the value (lowered by the caller, or ignored by a directive)
+  | .mk .jsxFragment _ _ => true
+  | _ => false
+
+theorem containerExpr_NoJsx (v e : Node) (hv : ValOk v = true) (h : containerExpr v = some e) : NoJsx e = true := by
+  unfold containerExpr at h
+  split at h
+  · split at h
+    · simp at h
+    · injection h with h; subst h
+      unfold ValOk at hv
+      split at hv <;> simp_all
+  · simp at h
+
+theorem transformModifiers_NoJsx (mods : List String) (q : Bool) (n : Node) (h : transformModifiers mods q = some n) : NoJsx n = true := by
+  unfold transformModifiers at h
+  split at h
+  · simp at h
+  · injection h with h; subst h
+    apply NoJsx_mk _ _ _ rfl
+    simp only [NoJsxL, Bool.and_true]
+    apply NoJsx_mk _ _ _ rfl
+    apply NoJsxL_map
+    intro m _
+    split <;> simp [nKV, nStr, nIdentName, nIdent, nBool, NoJsx, NoJsxL, isJsxSyntax]
+
+
+def optOk (o : Option Node) : Bool := match o with | some n => NoJsx n | none => true
+
+def DirOk (d : Dir) : Bool :=
+  match d with
+  | .normal _ a m v => optOk a && optOk m && NoJsx v
+  | .text e => NoJsx e
+  | .html e => NoJsx e
+  | .vmodel a t m v => optOk a && optOk t && optOk m && NoJsx v
+  | .slots e => optOk e
+
+theorem optOk_transformModifiers (mods : Option (List String)) (q : Bool) : optOk (mods.bind (transformModifiers · q)) = true := by
+  cases mods with
+  | none => rfl
+  | some m =>
+    simp only [Option.bind]
+    cases h : transformModifiers m q with
+    | none => rfl
+    | some n => exact transformModifiers_NoJsx m q n h
+
+theorem NoJsx_consts : NoJsx nVoid0 = true ∧ NoJsx nNull = true ∧ NoJsx nEmptyIdent = true ∧ (∀ b, NoJsx (nBool b) = true)
+    ∧ (∀ s, NoJsx (nStr s) = true) := by
+  refine ⟨by decide, by decide, by decide, ?_, ?_⟩
+  · intro b; simp [nBool, NoJsx, NoJsxL, isJsxSyntax]
+  · intro s; simp [nStr, NoJsx, NoJsxL, isJsxSyntax]
+
+theorem vHtmlOrText_NoJsx (w : String) (v : Node) (st : St) (hv : ValOk v = true) : NoJsx (vHtmlOrText w v st).1 = true := by
+  unfold vHtmlOrText
+  split
+  · -- a string literal value
+    unfold ValOk at hv
+    split at hv <;> simp_all [NoJsx, NoJsxL, isJsxSyntax]
+  · split
+    · rename_i e he
+      have hne := containerExpr_NoJsx v e hv he
+      split
+      · rename_i elems hel
+        have hels := arrayElems_NoJsx e elems hne hel
+        split
+        · rename_i first hf
+          exact plainElem_NoJsx elems 0 first hels hf
+        · exact hne
+      · exact hne
+    · exact NoJsx_consts.2.2.2.1 true
+
+
+@[simp] theorem optOk_some' (n : Node) : optOk (some n) = NoJsx n := rfl
+@[simp] theorem optOk_none' : optOk none = true := rfl
+@[simp] theorem optOk_tm (m : List String) (q : Bool) : optOk (transformModifiers m q) = true := by
+  cases h : transformModifiers m q with
+  | none => rfl
+  | some n => exact transformModifiers_NoJsx m q n h
+@[simp] theorem optOk_tm' (m : List String) (q : Bool) :
+    (match transformModifiers m q with | some n => NoJsx n | none => true) = true := optOk_tm m q
+
+set_option maxHeartbeats 2000000 in
+theorem parseVModel_DirOk (v : Node) (c : Bool) (arg : Option Node) (r : List String) (st : St)
+    (hv : ValOk v = true) (ha : optOk arg = true) : DirOk (parseVModel v c arg r st).1 = true := by
+  have hc := NoJsx_consts
+  unfold parseVModel
+  simp only
+  cases hce : containerExpr v with
+  | none =>
+    -- no expression: the placeholder identifier
+    simp only
+    have : arrayElems nEmptyIdent = none := by decide
+    simp only [this]
+    cases c <;> cases arg <;> simp_all [DirOk, optOk_transformModifiers, Option.isNone]
+      <;> (try split) <;> (try simp_all [optOk_transformModifiers])
+  | some e =>
+    have hne := containerExpr_NoJsx v e hv hce
+    simp only
+    cases hae : arrayElems e with
+    | none =>
+      simp only [DirOk, optOk_transformModifiers, hne, Bool.and_true]
+      cases arg with
+      | none => split <;> simp_all
+      | some a => split <;> simp_all
+    | some elems =>
+      have hels := arrayElems_NoJsx e elems hne hae
+      simp only
+      have h0 : ∀ x, plainElem elems 0 = some x → NoJsx x = true := fun x hx => plainElem_NoJsx elems 0 x hels hx
+      have h1 : ∀ x, plainElem elems 1 = some x → NoJsx x = true := fun x hx => plainElem_NoJsx elems 1 x hels hx
+      cases hp0 : plainElem elems 0 <;> cases hp1 : plainElem elems 1 <;> (try simp only []) <;>
+        (try (rename_i second; cases hs : arrayElems second)) <;> (try simp only []) <;>
+        (try (cases hp2 : (plainElem elems 2).bind arrayElems)) <;> (try simp only []) <;>
+        cases c <;> cases arg <;>
+        (try simp_all [DirOk, optOk_transformModifiers, Option.isNone]) <;> (try split) <;> (try simp_all [optOk_transformModifiers])
+
+
+theorem parseVSlots_DirOk (v : Node) (hv : ValOk v = true) : DirOk (parseVSlots v) = true := by
+  unfold parseVSlots
+  split
+  · rename_i e he
+    have hne := containerExpr_NoJsx v e hv he
+    split <;> simp_all [DirOk]
+  · rfl
+
+set_option maxHeartbeats 2000000 in
+theorem parseDirective_DirOk (n : AttrName) (v : Node) (c : Bool) (st : St) (hv : ValOk v = true) :
+    DirOk (parseDirective n v c st).1 = true := by
+  have hc := NoJsx_consts
+  unfold parseDirective
+  simp only
+  split
+  · exact vHtmlOrText_NoJsx _ v st hv
+  · split
+    · exact vHtmlOrText_NoJsx _ v st hv
+    · split
+      · apply parseVModel_DirOk _ _ _ _ _ hv
+        cases (dirNameParts n).2.1 <;> simp [Option.map, hc.2.2.2.2]
+      · split
+        · exact parseVSlots_DirOk v hv
+        · -- an ordinary directive
+          have harg : optOk ((dirNameParts n).2.1.map nStr) = true := by
+            cases (dirNameParts n).2.1 <;> simp [Option.map, hc.2.2.2.2]
+          cases hce : containerExpr v with
+          | none =>
+            simp only
+            have hs : ∀ s, NoJsx (nStr s) = true := hc.2.2.2.2
+            have hstr : ∀ as ks, ValOk (Node.mk K.str as ks) = true → NoJsx (Node.mk K.str as ks) = true := by
+              intro as ks h
+              unfold ValOk at h
+              split at h <;> simp_all [NoJsx, NoJsxL, isJsxSyntax]
+            cases hd : (dirNameParts n).2.1 <;> simp only [Option.map, DirOk] <;> (repeat' split) <;> (try simp_all [hs]) <;> (first | done | (rename_i h; rw [← h]; exact hs _) | (rename_i h _; rw [← h]; exact hs _))
+          | some e =>
+            have hne := containerExpr_NoJsx v e hv hce
+            simp only
+            cases hae : arrayElems e with
+            | none =>
+              cases hd : (dirNameParts n).2.1 <;> simp_all [DirOk, Option.map] <;> (try split) <;> (try simp_all)
+            | some elems =>
+              have hels := arrayElems_NoJsx e elems hne hae
+              have h0 : ∀ x, plainElem elems 0 = some x → NoJsx x = true := fun x hx => plainElem_NoJsx elems 0 x hels hx
+              have h1 : ∀ x, plainElem elems 1 = some x → NoJsx x = true := fun x hx => plainElem_NoJsx elems 1 x hels hx
+              simp only
+              cases hp0 : plainElem elems 0 <;> cases hp1 : plainElem elems 1 <;> (try simp only []) <;>
+                (try (rename_i second; cases hs : arrayElems second)) <;> (try simp only []) <;>
+                (try (cases hp2 : (plainElem elems 2).bind arrayElems)) <;> (try simp only []) <;>
+                cases hd : (dirNameParts n).2.1 <;>
+                (try simp_all [DirOk, Option.map, Option.isNone, Option.getD]) <;> (try split) <;> (try simp_all)
+
+
+/-! ### JSX-freeness of the node builders (a simp set) -/
+section builders
+variable (a b c : Node) (xs ys : List Node) (s t : String) (n : Nat) (q : Bool)
+@[simp] theorem nj_nil : NoJsxL [] = true := rfl
+@[simp] theorem nj_cons : NoJsxL (a :: xs) = (NoJsx a && NoJsxL xs) := rfl
+@[simp] theorem nj_append : NoJsxL (xs ++ ys) = (NoJsxL xs && NoJsxL ys) := NoJsxL_append xs ys
+@[simp] theorem nj_none : NoJsx nNone = true := by decide
+@[simp] theorem nj_null : NoJsx nNull = true := by decide
+@[simp] theorem nj_void0 : NoJsx nVoid0 = true := by decide
+@[simp] theorem nj_emptyIdent : NoJsx nEmptyIdent = true := by decide
+@[simp] theorem nj_list : NoJsx (nList xs) = NoJsxL xs := by simp [nList, NoJsx, isJsxSyntax]
+@[simp] theorem nj_stmts : NoJsx (nStmts xs) = NoJsxL xs := by simp [nStmts, NoJsx, isJsxSyntax]
+@[simp] theorem nj_ident : NoJsx (nIdent s t) = true := by simp [nIdent, NoJsx, NoJsxL, isJsxSyntax]
+@[simp] theorem nj_quoteIdent : NoJsx (nQuoteIdent s) = true := by simp [nQuoteIdent]
+@[simp] theorem nj_identName : NoJsx (nIdentName s) = true := by simp [nIdentName]
+@[simp] theorem nj_str : NoJsx (nStr s) = true := by simp [nStr, NoJsx, NoJsxL, isJsxSyntax]
+@[simp] theorem nj_num : NoJsx (nNum n) = true := by simp [nNum, NoJsx, NoJsxL, isJsxSyntax]
+@[simp] theorem nj_bool : NoJsx (nBool q) = true := by simp [nBool, NoJsx, NoJsxL, isJsxSyntax]
+@[simp] theorem nj_arg : NoJsx (nArg a) = NoJsx a := by simp [nArg, NoJsx, NoJsxL, isJsxSyntax]
+@[simp] theorem nj_spreadArg : NoJsx (nSpreadArg a) = NoJsx a := by simp [nSpreadArg, NoJsx, NoJsxL, isJsxSyntax]
+@[simp] theorem nj_spreadElement : NoJsx (nSpreadElement a) = NoJsx a := by simp [nSpreadElement, NoJsx, NoJsxL, isJsxSyntax]
+@[simp] theorem nj_array : NoJsx (nArray xs) = NoJsxL xs := by simp [nArray, NoJsx, NoJsxL, isJsxSyntax]
+@[simp] theorem nj_object : NoJsx (nObject xs) = NoJsxL xs := by simp [nObject, NoJsx, NoJsxL, isJsxSyntax]
+@[simp] theorem nj_kv : NoJsx (nKV a b) = (NoJsx a && NoJsx b) := by simp [nKV, NoJsx, NoJsxL, isJsxSyntax]
+@[simp] theorem nj_call : NoJsx (nCall a xs) = (NoJsx a && NoJsxL xs) := by simp [nCall, NoJsx, NoJsxL, isJsxSyntax]
+@[simp] theorem nj_arrow : NoJsx (nArrow xs a) = (NoJsxL xs && NoJsx a) := by simp [nArrow, NoJsx, NoJsxL, isJsxSyntax]
+@[simp] theorem nj_block : NoJsx (nBlock xs) = NoJsxL xs := by simp [nBlock, NoJsx, NoJsxL, isJsxSyntax]
+@[simp] theorem nj_return : NoJsx (nReturn a) = NoJsx a := by simp [nReturn, NoJsx, NoJsxL, isJsxSyntax]
+@[simp] theorem nj_assignParen : NoJsx (nAssignParen a b) = (NoJsx a && NoJsx b) := by simp [nAssignParen, NoJsx, NoJsxL, isJsxSyntax]
+@[simp] theorem nj_cond : NoJsx (nCond a b c) = (NoJsx a && NoJsx b && NoJsx c) := by simp [nCond, NoJsx, NoJsxL, isJsxSyntax, Bool.and_assoc]
+@[simp] theorem nj_bin : NoJsx (nBin s a b) = (NoJsx a && NoJsx b) := by simp [nBin, NoJsx, NoJsxL, isJsxSyntax]
+@[simp] theorem nj_unary : NoJsx (nUnary s a) = NoJsx a := by simp [nUnary, NoJsx, NoJsxL, isJsxSyntax]
+@[simp] theorem nj_member : NoJsx (nMember a s) = NoJsx a := by simp [nMember, NoJsx, NoJsxL, isJsxSyntax]
+@[simp] theorem nj_computed : NoJsx (nComputed a) = NoJsx a := by simp [nComputed, NoJsx, NoJsxL, isJsxSyntax]
+@[simp] theorem nj_varDecl : NoJsx (nVarDecl s xs) = NoJsxL xs := by simp [nVarDecl, NoJsx, NoJsxL, isJsxSyntax]
+@[simp] theorem nj_fnExpr : NoJsx (nFnExpr xs ys) = (NoJsxL xs && NoJsxL ys) := by simp [nFnExpr, NoJsx, NoJsxL, isJsxSyntax]
+theorem nj_bindingIdent (h : NoJsx a = true) : NoJsx (nBindingIdent a) = true := by
+  unfold nBindingIdent; split <;> simp_all [NoJsx, NoJsxL, isJsxSyntax]
+theorem nj_declarator (h : NoJsx a = true) (hb : NoJsx b = true) : NoJsx (nDeclarator a b) = true := by
+  simp [nDeclarator, NoJsx, NoJsxL, isJsxSyntax, nj_bindingIdent a h, hb]
+end builders
+
+/-! ### the visitor state holds no JSX -/
+
+structure StOk (st : St) : Prop where
+  imports : ∀ p ∈ st.imports, NoJsx p.2 = true
+  ton : optOk st.transformOnHelper = true
+  slotH : optOk st.slotHelper = true
+  vars : NoJsxL st.injectingVars = true
+  consts : NoJsxL st.injectingConsts = true
+
+theorem fresh_ok (st : St) (nm : String) (h : StOk st) : NoJsx (st.fresh nm).1 = true ∧ StOk (st.fresh nm).2 := by
+  refine ⟨by simp [St.fresh], ?_⟩
+  exact ⟨h.imports, h.ton, h.slotH, h.vars, h.consts⟩
+
+theorem err_ok (st : St) (m : String) (h : StOk st) : StOk (st.err m) := ⟨h.imports, h.ton, h.slotH, h.vars, h.consts⟩
+theorem panic_ok (st : St) (m : String) (h : StOk st) : StOk (st.panic m) := by
+  unfold St.panic; split
+  · exact h
+  · exact ⟨h.imports, h.ton, h.slotH, h.vars, h.consts⟩
+
+theorem importFromVue_ok (st : St) (item : String) (h : StOk st) :
+    NoJsx (st.importFromVue item).1 = true ∧ StOk (st.importFromVue item).2 := by
+  unfold St.importFromVue
+  split
+  · rename_i p hp
+    exact ⟨h.imports p (List.mem_of_find?_eq_some hp), h⟩
+  · refine ⟨by simp [St.fresh], ?_⟩
+    refine ⟨?_, h.ton, h.slotH, h.vars, h.consts⟩
+    intro p hp
+    simp only [St.fresh] at hp
+    rcases mem_insertSorted _ _ _ _ hp with hp | hp
+    · subst hp; simp
+    · exact h.imports p hp
+
+
+/-! ### attributes -/
+
+theorem mergeInto_NoJsx (d v : Node) (hd : NoJsx d = true) (hv : NoJsx v = true) : NoJsx (mergeInto d v) = true := by
+  unfold mergeInto
+  split
+  · simp only [NoJsx, NoJsxL, isJsxSyntax, Bool.not_false, Bool.true_and, Bool.and_true] at hd ⊢
+    simp [NoJsxL_append, hd, hv]
+  · simp [hd, hv]
+
+theorem dedupeAdd_NoJsx (name : String) (prop value : Node) (hp : NoJsx prop = true) (hv : NoJsx value = true) :
+    ∀ (l : List Node), NoJsxL l = true → NoJsxL (dedupeAdd name prop value l) = true
+  | [], _ => by simp [dedupeAdd, hp]
+  | d :: ds, h => by
+    simp only [nj_cons, Bool.and_eq_true] at h
+    unfold dedupeAdd
+    split
+    · rename_i das k kas kks dv
+      split
+      · split
+        · have hd := h.1
+          simp only [NoJsx, NoJsxL, isJsxSyntax, Bool.not_false, Bool.true_and, Bool.and_true, Bool.and_eq_true] at hd
+          simp only [nj_cons, Bool.and_eq_true, h.2, and_true]
+          simp only [NoJsx, NoJsxL, isJsxSyntax, Bool.not_false, Bool.true_and, Bool.and_true, Bool.and_eq_true]
+          exact ⟨hd.1, mergeInto_NoJsx dv value hd.2 hv⟩
+        · simp [h.1, h.2]
+      · simp [h.1, dedupeAdd_NoJsx name prop value hp hv ds h.2]
+    · simp [h.1, dedupeAdd_NoJsx name prop value hp hv ds h.2]
+
+theorem dedupeProps_NoJsx (props : List Node) (h : NoJsxL props = true) : NoJsxL (dedupeProps props) = true := by
+  unfold dedupeProps
+  suffices hs : ∀ (ps acc : List Node), NoJsxL ps = true → NoJsxL acc = true →
+      NoJsxL (ps.foldl (fun defined p =>
+        match p with
+        | .mk .kv _ [.mk .str (k :: _) _, v] => dedupeAdd k p v defined
+        | p => defined ++ [p]) acc) = true from hs props [] h rfl
+  intro ps
+  induction ps with
+  | nil => intro acc _ ha; exact ha
+  | cons p rest ih =>
+    intro acc hps ha
+    simp only [nj_cons, Bool.and_eq_true] at hps
+    simp only [List.foldl]
+    apply ih _ hps.2
+    split
+    · rename_i as0 k ks0 kks v
+      have hp := hps.1
+      have hv : NoJsx v = true := by
+        simp only [NoJsx, NoJsxL, isJsxSyntax, Bool.not_false, Bool.true_and, Bool.and_true, Bool.and_eq_true] at hp
+        exact hp.2
+      exact dedupeAdd_NoJsx k _ v hp hv acc ha
+    · simp [ha, hps.1]
+
+
+def dirTupleOk (d : String × Option Node × Option Node × Node) : Bool := optOk d.2.1 && optOk d.2.2.1 && NoJsx d.2.2.2
+
+structure AccOk (acc : AttrAcc) : Prop where
+  props : NoJsxL acc.props = true
+  mergeArgs : NoJsxL acc.mergeArgs = true
+  slots : optOk acc.slots = true
+  dirs : ∀ d ∈ acc.directives, dirTupleOk d = true
+
+theorem nj_modelListener (t : Node) (h : NoJsx t = true) : NoJsx (nModelListener t) = true := by
+  simp [nModelListener, h, nj_bindingIdent]
+
+theorem vmodelArgKind_ok (a : Option Node) (ha : optOk a = true) : NoJsx (vmodelArgKind a).2.2 = true := by
+  unfold vmodelArgKind
+  split
+  · simp
+  · simp
+  · simp
+  · rename_i e _ _; exact ha
+
+theorem vmodelStepK_ok (c : Bool) (ak : Nat × String × Node) (t m : Option Node) (v : Node) (acc : AttrAcc)
+    (hak : NoJsx ak.2.2 = true) (ht : optOk t = true) (hm : optOk m = true) (hv : NoJsx v = true) (hacc : AccOk acc) :
+    AccOk (vmodelStepK c ak t m v acc) := by
+  have hl := nj_modelListener v hv
+  obtain ⟨hp, hma, hs, hd⟩ := hacc
+  obtain ⟨n, s, e⟩ := ak
+  simp only at hak
+  have hdm : ∀ d ∈ acc.directives ++ [("model", t, m, v)], dirTupleOk d = true := by
+    intro d hdm
+    simp only [List.mem_append, List.mem_singleton] at hdm
+    rcases hdm with hdm | rfl
+    · exact hd d hdm
+    · simp [dirTupleOk, ht, hm, hv]
+  unfold vmodelStepK
+  rcases n with _ | _ | n <;> cases c <;> cases m <;>
+    (first
+      | exact ⟨by simp_all, by simp_all, hs, by simpa using hdm⟩
+      | exact ⟨by simp_all, by simp_all, hs, by simpa using hd⟩)
+
+theorem vmodelStep_ok (o : Opts) (c : Bool) (a t m : Option Node) (v : Node) (acc : AttrAcc)
+    (ha : optOk a = true) (ht : optOk t = true) (hm : optOk m = true) (hv : NoJsx v = true) (hacc : AccOk acc) :
+    AccOk (vmodelStep o c a t m v acc) := by
+  unfold vmodelStep
+  exact vmodelStepK_ok c _ t m v acc (vmodelArgKind_ok a ha) ht hm hv hacc
+
+/-- the value of a PLAIN attribute that was not lowered: absent, a string, or `{e}` with `e` JSX-free -/
+def StrictValOk (v : Node) : Bool :=
+  match v with
+  | .mk .none _ _ => true
+  | .mk .str _ [] => true
+  | .mk .jsxExprContainer _ [e] => NoJsx e
+  | _ => false
+
+theorem attrValueExpr_ok (v : Node) (l : Option Node) (st : St) (hv : StrictValOk v = true ∨ ∃ e, l = some e) (hl : optOk l = true)
+    (hst : StOk st) : NoJsx (attrValueExpr v l st).1 = true ∧ StOk (attrValueExpr v l st).2 := by
+  unfold attrValueExpr
+  split
+  · exact ⟨hl, hst⟩
+  · rcases hv with hv | ⟨e, he⟩
+    · unfold StrictValOk at hv
+      split
+      · exact ⟨by simp, hst⟩
+      · exact ⟨by simp, hst⟩
+      · rename_i e
+        refine ⟨?_, hst⟩
+        split at hv <;> simp_all [NoJsx, NoJsxL, isJsxSyntax]
+      · refine ⟨?_, panic_ok _ _ hst⟩
+        split at hv <;> simp_all [NoJsx, NoJsxL, isJsxSyntax]
+    · simp_all
+
+/-- an attribute as the fold meets it: a directive with an admissible value; a plain attribute with a strict value, or
+    with the lowered value of the element written as its value; a spread of a JSX-free expression; anything else (ill-formed) -/
+def AttrOk (a : Node) (l : Option Node) : Prop :=
+  (∃ as nameN valueN, a = .mk .jsxAttr as [nameN, valueN] ∧ optOk l = true ∧
+      ((isDirectiveAttrName (attrNameOf nameN) = true ∧ l = none ∧ ValOk valueN = true)
+       ∨ (isDirectiveAttrName (attrNameOf nameN) = false ∧ l = none ∧ StrictValOk valueN = true)
+       ∨ (isDirectiveAttrName (attrNameOf nameN) = false ∧ ∃ e, l = some e)))
+  ∨ (∃ as e, a = .mk .spreadElement as [e] ∧ NoJsx e = true)
+  ∨ (∀ as n v, a ≠ .mk .jsxAttr as [n, v]) ∧ (∀ as e, a ≠ .mk .spreadElement as [e])
+
+/-- the node-carrying fields of the state -/
+def St.nodes (st : St) : List (String × Node) × Option Node × Option Node × List Node × List Node :=
+  (st.imports, st.transformOnHelper, st.slotHelper, st.injectingVars, st.injectingConsts)
+
+theorem StOk_of_nodes {a b : St} (h : a.nodes = b.nodes) (hb : StOk b) : StOk a := by
+  simp only [St.nodes, Prod.mk.injEq] at h
+  obtain ⟨h1, h2, h3, h4, h5⟩ := h
+  exact ⟨h1 ▸ hb.imports, h2 ▸ hb.ton, h3 ▸ hb.slotH, h4 ▸ hb.vars, h5 ▸ hb.consts⟩
+
+@[simp] theorem err_nodes (st : St) (m : String) : (st.err m).nodes = st.nodes := rfl
+
+theorem vHtmlOrText_nodes (w : String) (v : Node) (st : St) : (vHtmlOrText w v st).2.nodes = st.nodes := by
+  unfold vHtmlOrText
+  split
+  · rfl
+  · split
+    · split
+      · split <;> rfl
+      · rfl
+    · rfl
+
+theorem parseVModel_nodes (v : Node) (c : Bool) (a : Option Node) (r : List String) (st : St) :
+    (parseVModel v c a r st).2.nodes = st.nodes := by
+  unfold parseVModel
+  simp only
+  split <;> (repeat' split) <;> simp_all [St.nodes, St.err]
+
+theorem parseDirective_nodes (n : AttrName) (v : Node) (c : Bool) (st : St) : (parseDirective n v c st).2.nodes = st.nodes := by
+  unfold parseDirective
+  simp only
+  split
+  · exact vHtmlOrText_nodes _ _ _
+  · split
+    · exact vHtmlOrText_nodes _ _ _
+    · split
+      · exact parseVModel_nodes _ _ _ _ _
+      · split <;> rfl
+
+theorem coverHyd_fields (c : Bool) (nm : String) (acc : AttrAcc) :
+    (coverStep c nm (hydrationStep c nm acc)).props = acc.props ∧ (coverStep c nm (hydrationStep c nm acc)).mergeArgs = acc.mergeArgs
+    ∧ (coverStep c nm (hydrationStep c nm acc)).slots = acc.slots ∧ (coverStep c nm (hydrationStep c nm acc)).directives = acc.directives := by
+  unfold coverStep hydrationStep
+  (repeat' split) <;> simp
+
+theorem plainAttrFlags_fields (c : Bool) (nm : String) (v : Node) (t : Bool) (acc : AttrAcc) :
+    (plainAttrFlags c nm v t acc).props = acc.props ∧ (plainAttrFlags c nm v t acc).mergeArgs = acc.mergeArgs
+    ∧ (plainAttrFlags c nm v t acc).slots = acc.slots ∧ (plainAttrFlags c nm v t acc).directives = acc.directives := by
+  unfold plainAttrFlags
+  by_cases ht : t = true
+  · simp [ht]
+  · by_cases hr : (nm == "ref") = true
+    · simp [ht, hr]
+    · by_cases hcst : (!(if isNone v then false else isAttrValueConstant v)) = true
+      · simp only [ht, hr, hcst, Bool.false_eq_true, if_false, if_true]
+        exact coverHyd_fields c nm acc
+      · simp only [ht, hr, hcst, Bool.false_eq_true, if_false]
+        simp
+
+theorem AccOk_of_fields {a b : AttrAcc} (h1 : a.props = b.props) (h2 : a.mergeArgs = b.mergeArgs) (h3 : a.slots = b.slots)
+    (h4 : a.directives = b.directives) (hb : AccOk b) : AccOk a :=
+  ⟨h1 ▸ hb.props, h2 ▸ hb.mergeArgs, h3 ▸ hb.slots, h4 ▸ hb.dirs⟩
+
+
+theorem plainPart_ok (o : Opts) (c : Bool) (attrName : String) (valueN attrValue : Node) (acc : AttrAcc) (st : St)
+    (hv : NoJsx attrValue = true) (hacc : AccOk acc) (hst : StOk st) :
+    let r :=
+      (let isTransformOn := o.transformOn && (attrName == "on" || attrName == "nativeOn")
+       let acc := plainAttrFlags c attrName valueN isTransformOn acc
+       if isTransformOn then
+         let (helper, st) :=
+           (match st.transformOnHelper with
+            | some h => (h, st)
+            | none => let (h, st) := st.fresh "_transformOn"; (h, { st with transformOnHelper := some h }))
+         let acc :=
+           if !acc.props.isEmpty then
+             { acc with mergeArgs := acc.mergeArgs ++ [nObject (if o.mergeProps then dedupeProps acc.props else acc.props)],
+                        props := [] }
+           else acc
+         (({ acc with mergeArgs := acc.mergeArgs ++ [nCall helper [nArg attrValue]] } : AttrAcc), st)
+       else (({ acc with props := acc.props ++ [nKV (nStr attrName) attrValue] } : AttrAcc), st))
+    AccOk r.1 ∧ StOk r.2 := by
+  have hpf : ∀ t, AccOk (plainAttrFlags c attrName valueN t acc) := by
+    intro t
+    obtain ⟨f1, f2, f3, f4⟩ := plainAttrFlags_fields c attrName valueN t acc
+    exact AccOk_of_fields f1 f2 f3 f4 hacc
+  simp only
+  by_cases ht : (o.transformOn && (attrName == "on" || attrName == "nativeOn")) = true
+  · simp only [ht, if_true]
+    have hacc' := hpf true
+    generalize plainAttrFlags c attrName valueN true acc = acc1 at hacc' ⊢
+    have hdd : NoJsxL (if o.mergeProps = true then dedupeProps acc1.props else acc1.props) = true := by
+      split
+      · exact dedupeProps_NoJsx _ hacc'.props
+      · exact hacc'.props
+    cases hh : st.transformOnHelper with
+    | some h =>
+      have hh' : NoJsx h = true := by have := hst.ton; rw [hh] at this; exact this
+      simp only
+      refine ⟨?_, hst⟩
+      by_cases he : (!acc1.props.isEmpty) = true
+      · simp only [he, if_true]
+        exact ⟨rfl, by simp [hacc'.mergeArgs, hdd, hh', hv], hacc'.slots, hacc'.dirs⟩
+      · simp only [he]
+        exact ⟨hacc'.props, by simp [hacc'.mergeArgs, hh', hv], hacc'.slots, hacc'.dirs⟩
+    | none =>
+      simp only
+      refine ⟨?_, ⟨hst.imports, by simp [St.fresh], hst.slotH, hst.vars, hst.consts⟩⟩
+      by_cases he : (!acc1.props.isEmpty) = true
+      · simp only [he, if_true]
+        exact ⟨rfl, by simp [hacc'.mergeArgs, hdd, hv, St.fresh], hacc'.slots, hacc'.dirs⟩
+      · simp only [he]
+        exact ⟨hacc'.props, by simp [hacc'.mergeArgs, hv, St.fresh], hacc'.slots, hacc'.dirs⟩
+  · have ht' : (o.transformOn && (attrName == "on" || attrName == "nativeOn")) = false := by simpa using ht
+    simp only [ht', Bool.false_eq_true, if_false]
+    have hacc' := hpf false
+    generalize plainAttrFlags c attrName valueN false acc = acc1 at hacc' ⊢
+    exact ⟨⟨by simp [hacc'.props, hv], hacc'.mergeArgs, hacc'.slots, hacc'.dirs⟩, hst⟩
+
+
+theorem attrStep_ok (o : Opts) (c : Bool) (a : Node) (l : Option Node) (acc : AttrAcc) (st : St)
+    (ha : AttrOk a l) (hacc : AccOk acc) (hst : StOk st) :
+    AccOk (attrStep o c a l acc st).1 ∧ StOk (attrStep o c a l acc st).2 := by
+  unfold attrStep
+  split
+  · -- an attribute
+    rename_i as nameN valueN
+    have hform : optOk l = true ∧
+        ((isDirectiveAttrName (attrNameOf nameN) = true ∧ l = none ∧ ValOk valueN = true)
+         ∨ (isDirectiveAttrName (attrNameOf nameN) = false ∧ l = none ∧ StrictValOk valueN = true)
+         ∨ (isDirectiveAttrName (attrNameOf nameN) = false ∧ ∃ e, l = some e)) := by
+      rcases ha with ⟨as', n', v', heq, h1, h2⟩ | ⟨as', e, heq, _⟩ | ⟨h1, _⟩
+      · injection heq with _ _ hk
+        simp only [List.cons.injEq, and_true] at hk
+        obtain ⟨rfl, rfl⟩ := hk
+        exact ⟨h1, h2⟩
+      · injection heq with hk; cases hk
+      · exact absurd rfl (h1 _ _ _)
+    simp only
+    split
+    · -- a directive
+      rename_i hdir
+      have hval : ValOk valueN = true := by
+        rcases hform.2 with ⟨_, _, h⟩ | ⟨h, _⟩ | ⟨h, _⟩
+        · exact h
+        · rw [hdir] at h; cases h
+        · rw [hdir] at h; cases h
+      have hd := parseDirective_DirOk (attrNameOf nameN) valueN c st hval
+      have hst' : StOk (parseDirective (attrNameOf nameN) valueN c st).2 := StOk_of_nodes (parseDirective_nodes _ _ _ _) hst
+      split
+      · rename_i n arg mods v heq
+        rw [heq] at hd
+        simp only [DirOk, Bool.and_eq_true] at hd
+        refine ⟨⟨hacc.props, hacc.mergeArgs, hacc.slots, ?_⟩, hst'⟩
+        intro d hdm
+        simp only [List.mem_append, List.mem_singleton] at hdm
+        rcases hdm with hdm | rfl
+        · exact hacc.dirs d hdm
+        · simp [dirTupleOk, hd.1.1, hd.1.2, hd.2]
+      · rename_i e heq
+        rw [heq] at hd
+        exact ⟨⟨by simp [hacc.props, (show NoJsx e = true from hd)], hacc.mergeArgs, hacc.slots, hacc.dirs⟩, hst'⟩
+      · rename_i e heq
+        rw [heq] at hd
+        exact ⟨⟨by simp [hacc.props, (show NoJsx e = true from hd)], hacc.mergeArgs, hacc.slots, hacc.dirs⟩, hst'⟩
+      · rename_i arg targ mods v heq
+        rw [heq] at hd
+        simp only [DirOk, Bool.and_eq_true] at hd
+        exact ⟨vmodelStep_ok o c arg targ mods v acc hd.1.1.1 hd.1.1.2 hd.1.2 hd.2 hacc, hst'⟩
+      · rename_i e heq
+        rw [heq] at hd
+        exact ⟨⟨hacc.props, hacc.mergeArgs, hd, hacc.dirs⟩, hst'⟩
+    · -- a plain attribute
+      rename_i hnd
+      have hav := attrValueExpr_ok valueN l st (by
+        rcases hform.2 with ⟨h, _⟩ | ⟨_, _, h⟩ | ⟨_, e, he⟩
+        · exact absurd h hnd
+        · exact Or.inl h
+        · exact Or.inr ⟨e, he⟩) hform.1 hst
+      exact plainPart_ok o c _ valueN _ acc _ hav.1 hacc hav.2
+  · -- a spread
+    rename_i as e
+    have he : NoJsx e = true := by
+      rcases ha with ⟨as', n', v', heq, _⟩ | ⟨as', e', heq, h⟩ | ⟨_, h2⟩
+      · injection heq with hk; cases hk
+      · injection heq with _ _ hk
+        simp only [List.cons.injEq, and_true] at hk
+        subst hk; exact h
+      · exact absurd rfl (h2 _ _)
+    simp only
+    have hdd := dedupeProps_NoJsx _ hacc.props
+    have hop : ∀ (oas las : List String) (ops : List Node), NoJsx (.mk .object oas [.mk .list las ops]) = true → NoJsxL ops = true := by
+      intro _ _ _ h; simpa [NoJsx, NoJsxL, isJsxSyntax] using h
+    split <;> split <;> (try split) <;> (try (have hops := hop _ _ _ he)) <;>
+      (first
+        | exact ⟨⟨by simp_all [hacc.props, NoJsx_kids], by simp_all [hacc.mergeArgs], hacc.slots, hacc.dirs⟩, hst⟩
+        | (refine ⟨⟨?_, ?_, hacc.slots, hacc.dirs⟩, hst⟩ <;> simp_all [hacc.props, hacc.mergeArgs, NoJsx, NoJsxL, isJsxSyntax]))
+  · exact ⟨hacc, panic_ok _ _ hst⟩
+
+
+/-! ### element-level builders -/
+
+theorem assembleProps_ok (o : Opts) (props mergeArgs : List Node) (st : St) (hp : NoJsxL props = true) (hm : NoJsxL mergeArgs = true)
+    (hst : StOk st) : NoJsx (assembleProps o props mergeArgs st).1 = true ∧ StOk (assembleProps o props mergeArgs st).2 := by
+  have hdd : NoJsxL (if o.mergeProps = true then dedupeProps props else props) = true := by
+    split
+    · exact dedupeProps_NoJsx _ hp
+    · exact hp
+  unfold assembleProps
+  split
+  · simp only
+    have hma : NoJsxL (if (!props.isEmpty) = true then mergeArgs ++ [nObject (if o.mergeProps = true then dedupeProps props else props)] else mergeArgs) = true := by
+      split
+      · simp [hm, hdd]
+      · exact hm
+    generalize (if (!props.isEmpty) = true then mergeArgs ++ [nObject (if o.mergeProps = true then dedupeProps props else props)] else mergeArgs) = ma at hma ⊢
+    split
+    · rename_i e
+      simp only [nj_cons, nj_nil, Bool.and_true] at hma
+      exact ⟨hma, hst⟩
+    · have hi := importFromVue_ok st "mergeProps" hst
+      refine ⟨?_, hi.2⟩
+      simp only [nj_call, hi.1, Bool.true_and]
+      apply NoJsxL_map
+      intro x hx
+      simpa using (NoJsxL_iff ma).mp hma x hx
+  · split
+    · split
+      · rename_i as e
+        simp only [nj_cons, nj_nil, Bool.and_true] at hp
+        have := NoJsx_kids hp
+        simp only [nj_cons, nj_nil, Bool.and_true] at this
+        exact ⟨this, hst⟩
+      · exact ⟨by simp [hdd], hst⟩
+    · exact ⟨by simp, hst⟩
+
+theorem getPragma_ok (o : Opts) (st : St) (hst : StOk st) : NoJsx (getPragma o st).1 = true ∧ StOk (getPragma o st).2 := by
+  unfold getPragma
+  split
+  · exact ⟨by simp, hst⟩
+  · split
+    · exact ⟨by simp, hst⟩
+    · exact importFromVue_ok st _ hst
+
+/-- a tag name as the parser produces it -/
+def TagOk (n : Node) : Bool :=
+  match n with
+  | .mk .ident (_ :: _ :: _) _ => true
+  | .mk .jsxMember as ks => WfMember (.mk .jsxMember as ks)
+  | .mk .jsxNsName _ [_, _] => true
+  | _ => false
+
+theorem transformTag_ok (env : Env) (n : Node) (st : St) (hn : TagOk n = true) (hst : StOk st) :
+    NoJsx (transformTag env n st).1 = true ∧ StOk (transformTag env n st).2 := by
+  unfold transformTag
+  split
+  · split
+    · exact ⟨by simp, hst⟩
+    · split
+      · exact importFromVue_ok st _ hst
+      · split
+        · exact ⟨by simp, hst⟩
+        · split
+          · have hi := importFromVue_ok st "resolveComponent" hst
+            exact ⟨by simp [hi.1], hi.2⟩
+          · exact ⟨by simp, hst⟩
+  · rename_i as ks
+    exact ⟨C07_member_tag_no_jsx _ (by simpa [TagOk] using hn), hst⟩
+  · exact ⟨by simp, hst⟩
+  · rename_i h1 h2 h3
+    exfalso
+    unfold TagOk at hn
+    split at hn
+    · exact h1 _ _ _ _ rfl
+    · exact h2 _ _ rfl
+    · exact h3 _ _ _ rfl
+    · simp at hn
+
+theorem genSlotIdent_ok (st : St) (hst : StOk st) : NoJsx (genSlotIdent st).1 = true ∧ StOk (genSlotIdent st).2 := by
+  unfold genSlotIdent
+  simp only [St.fresh]
+  refine ⟨by simp, ⟨hst.imports, hst.ton, hst.slotH, ?_, hst.consts⟩⟩
+  simp [hst.vars, nj_declarator]
+
+
+theorem foldl_inv {α : Type} (P : α × St → Prop) (f : α × St → Node → α × St)
+    (hf : ∀ acc e, P acc → NoJsx e = true → P (f acc e)) :
+    ∀ (elems : List Node) (acc : α × St), P acc → NoJsxL elems = true → P (elems.foldl f acc)
+  | [], acc, h, _ => h
+  | e :: rest, acc, h, he => by
+    simp only [nj_cons, Bool.and_eq_true] at he
+    simp only [List.foldl]
+    exact foldl_inv P f hf rest _ (hf acc e h he.1) he.2
+
+theorem buildIife_ok (elems : List Node) (st : St) (he : NoJsxL elems = true) (hst : StOk st) :
+    NoJsxL (buildIife elems st).1 = true ∧ StOk (buildIife elems st).2 := by
+  unfold buildIife
+  split
+  · exact ⟨he, hst⟩
+  · apply foldl_inv (fun (acc : List Node × St) => NoJsxL acc.1 = true ∧ StOk acc.2) _ _ elems _ _ he
+    · intro acc e hacc hen
+      obtain ⟨out, st'⟩ := acc
+      simp only at hacc ⊢
+      split
+      · split
+        · simp only [St.fresh]
+          refine ⟨by simp [hacc.1], ⟨hacc.2.imports, hacc.2.ton, hacc.2.slotH, hacc.2.vars, ?_⟩⟩
+          simp only [nj_append, hacc.2.consts, Bool.true_and, nj_cons, nj_nil, Bool.and_true]
+          apply nj_declarator _ _ (by simp)
+          simp only [nj_call, nj_fnExpr, nj_nil, nj_cons, nj_return, Bool.and_true, Bool.true_and]
+          simp [NoJsx, NoJsxL, isJsxSyntax] at hen ⊢
+          exact hen
+        · exact ⟨by simp [hacc.1, hen], hacc.2⟩
+      · exact ⟨by simp [hacc.1, hen], hacc.2⟩
+    · exact ⟨rfl, ⟨hst.imports, hst.ton, hst.slotH, hst.vars, hst.consts⟩⟩
+
+theorem wrapChildren_NoJsx (o : Opts) (elems : List Node) (f : Nat) (slots : Option Node) (he : NoJsxL elems = true)
+    (hs : optOk slots = true) : NoJsx (wrapChildren o elems f slots) = true := by
+  unfold wrapChildren
+  simp only
+  have hobj : ∀ (as las : List String) (sp : List Node), optOk (some (Node.mk K.object as [Node.mk K.list las sp])) = true → NoJsxL sp = true := by
+    intro as las sp h; simpa [NoJsx, NoJsxL, isJsxSyntax] using h
+  split <;> split <;> (try (have hsp := hobj _ _ _ hs)) <;> (try (have hne : NoJsx _ = true := hs)) <;> simp_all
+
+
+theorem slotHelper_ok (st : St) (hst : StOk st) :
+    let r := (match st.slotHelper with
+      | some h => (h, st)
+      | none => let (h, st) := st.fresh "_isSlot"; (h, { st with slotHelper := some h }))
+    NoJsx r.1 = true ∧ StOk r.2 := by
+  cases hh : st.slotHelper with
+  | some h =>
+    have : NoJsx h = true := by have := hst.slotH; rw [hh] at this; exact this
+    exact ⟨this, hst⟩
+  | none =>
+    simp only [St.fresh]
+    exact ⟨by simp, ⟨hst.imports, hst.ton, by simp, hst.vars, hst.consts⟩⟩
+
+theorem argKids_NoJsx (as : List String) (e : Node) (h : NoJsxL [Node.mk .arg as [e]] = true) : NoJsx e = true := by
+  simpa [NoJsx, NoJsxL, isJsxSyntax] using h
+
+theorem finishChildren_ok (o : Opts) (elems : List Node) (c : Bool) (slots : Option Node) (f : Nat) (st : St)
+    (he : NoJsxL elems = true) (hs : optOk slots = true) (hst : StOk st) :
+    NoJsx (finishChildren o elems c slots f st).1 = true ∧ StOk (finishChildren o elems c slots f st).2 := by
+  unfold finishChildren
+  split
+  · -- no children
+    refine ⟨?_, hst⟩
+    split
+    · exact hs
+    · simp
+  · -- a sole plain child
+    rename_i as e
+    have hne := argKids_NoJsx as e he
+    split
+    · -- an identifier
+      split
+      · have hb := buildIife_ok [Node.mk .arg as [Node.mk .ident _ _]] st he hst
+        simp only
+        split
+        · have hw := wrapChildren_NoJsx o _ f slots hb.1 hs
+          cases hsl : (buildIife [Node.mk .arg as [Node.mk .ident _ _]] st).2.slotHelper with
+          | some h =>
+            have hh : NoJsx h = true := by have := hb.2.slotH; rw [hsl] at this; exact this
+            simp only
+            exact ⟨by simp [hh, hne, hw], hb.2⟩
+          | none =>
+            simp only [St.fresh]
+            exact ⟨by simp [hne, hw], ⟨hb.2.imports, hb.2.ton, by simp, hb.2.vars, hb.2.consts⟩⟩
+        · exact ⟨wrapChildren_NoJsx o _ f slots hb.1 hs, hb.2⟩
+      · exact ⟨by simpa using he, hst⟩
+    · -- a call
+      split
+      · split
+        · simp only
+          have hg := genSlotIdent_ok st hst
+          cases hsl : (genSlotIdent st).2.slotHelper with
+          | some h =>
+            have hh : NoJsx h = true := by have := hg.2.slotH; rw [hsl] at this; exact this
+            simp only
+            have hb := buildIife_ok [nArg (genSlotIdent st).1] (genSlotIdent st).2 (by simp [hg.1]) hg.2
+            exact ⟨by simp [hh, hg.1, hne, wrapChildren_NoJsx o _ f slots hb.1 hs], hb.2⟩
+          | none =>
+            simp only
+            have hf := fresh_ok (genSlotIdent st).2 "_isSlot" hg.2
+            have hst2 : StOk { ((genSlotIdent st).2.fresh "_isSlot").2 with slotHelper := some ((genSlotIdent st).2.fresh "_isSlot").1 } :=
+              ⟨hf.2.imports, hf.2.ton, hf.1, hf.2.vars, hf.2.consts⟩
+            have hb := buildIife_ok [nArg (genSlotIdent st).1] _ (by simp [hg.1]) hst2
+            exact ⟨by simp [hf.1, hg.1, hne, wrapChildren_NoJsx o _ f slots hb.1 hs], hb.2⟩
+        · exact ⟨wrapChildren_NoJsx o _ f slots he hs, hst⟩
+      · split
+        · exact ⟨wrapChildren_NoJsx o _ f slots he hs, hst⟩
+        · exact ⟨by simpa using he, hst⟩
+    · exact ⟨by simp [hne], hst⟩
+    · exact ⟨by simp [hne], hst⟩
+    · -- an object literal: its entries (plus the hint)
+      rename_i oas las props
+      have hp : NoJsxL props = true := by simpa [NoJsx, NoJsxL, isJsxSyntax] using hne
+      refine ⟨?_, hst⟩
+      split <;> simp [hp]
+    · split
+      · exact ⟨wrapChildren_NoJsx o _ f slots he hs, hst⟩
+      · exact ⟨by simpa using he, hst⟩
+  · split
+    · exact ⟨wrapChildren_NoJsx o _ f slots he hs, hst⟩
+    · exact ⟨by simpa using he, hst⟩
+
+theorem ite_ok {c : Prop} [Decidable c] (x y : Node × St) (hx : NoJsx x.1 = true ∧ StOk x.2) (hy : NoJsx y.1 = true ∧ StOk y.2) :
+    NoJsx (if c then x else y).1 = true ∧ StOk (if c then x else y).2 := by
+  split <;> assumption
+
+theorem resolveDirective_ok (n : String) (t : Node) (a : List Node) (st : St) (hst : StOk st) :
+    NoJsx (resolveDirective n t a st).1 = true ∧ StOk (resolveDirective n t a st).2 := by
+  have hi := fun item => importFromVue_ok st item hst
+  unfold resolveDirective
+  split
+  · exact hi _
+  · split
+    · simp only
+      apply ite_ok _ _ (hi _)
+      apply ite_ok _ _ (hi _)
+      split
+      · apply ite_ok _ _ (hi _)
+        apply ite_ok _ _ (hi _)
+        exact hi _
+      · exact hi _
+      · exact hi _
+    · exact ⟨by simp [(hi "resolveDirective").1], (hi "resolveDirective").2⟩
+
+theorem dirEntries_ok (t : Node) (a : List Node) : ∀ (ds : List (String × Option Node × Option Node × Node)) (st : St),
+    (∀ d ∈ ds, dirTupleOk d = true) → StOk st → NoJsxL (dirEntries t a ds st).1 = true ∧ StOk (dirEntries t a ds st).2
+  | [], st, _, hst => by simp [dirEntries, hst]
+  | (n, arg, m, v) :: rest, st, hd, hst => by
+    have h0 := hd (n, arg, m, v) (by simp)
+    simp only [dirTupleOk, Bool.and_eq_true] at h0
+    have hr := resolveDirective_ok n t a st hst
+    have ih := dirEntries_ok t a rest (resolveDirective n t a st).2 (fun d hdm => hd d (by simp [hdm])) hr.2
+    simp only [dirEntries]
+    refine ⟨?_, ih.2⟩
+    simp only [nj_cons, nj_arg, nj_array, nj_append, nj_nil, Bool.and_true, hr.1, h0.2, ih.1, Bool.true_and]
+    cases arg <;> cases m <;> simp_all
+
+
+/-! ### the lowering of a prepared element is JSX-free -/
+
+mutual
+/-- a JSX element / fragment whose embedded expressions are already JSX-free: what the traversal hands to the lowering -/
+def PrepEl : Node → Bool
+  | .mk .jsxElement _ [.mk .jsxOpening _ [nameN, .mk .list _ attrs, _], .mk .list _ children, _] =>
+    TagOk nameN && PrepAttrs attrs && PrepKids children
+  | .mk .jsxFragment _ [_, .mk .list _ children, _] => PrepKids children
+  | _ => false
+def PrepAttrs : List Node → Bool
+  | [] => true
+  | a :: rest => PrepAttr a && PrepAttrs rest
+def PrepAttr : Node → Bool
+  | .mk .jsxAttr _ [nameN, v] =>
+    if isDirectiveAttrName (attrNameOf nameN) then ValOk v
+    else
+      match v with
+      | .mk .jsxElement as ks => PrepEl (.mk .jsxElement as ks)
+      | .mk .jsxFragment as ks => PrepEl (.mk .jsxFragment as ks)
+      | v => StrictValOk v
+  | .mk .spreadElement _ [e] => NoJsx e
+  | _ => false
+def PrepKids : List Node → Bool
+  | [] => true
+  | c :: rest => PrepKid c && PrepKids rest
+def PrepKid : Node → Bool
+  | .mk .jsxText _ _ => true
+  | .mk .jsxExprContainer _ [e] => (match e with | .mk .jsxEmpty _ _ => true | e => NoJsx e)
+  | .mk .jsxSpreadChild _ [e] => NoJsx e
+  | .mk .jsxElement as ks => PrepEl (.mk .jsxElement as ks)
+  | .mk .jsxFragment as ks => PrepEl (.mk .jsxFragment as ks)
+  | _ => false
+end
+
+
+theorem pushFlag_ok (o : Opts) (st : St) (h : StOk st) : StOk (pushFlag o st) := by
+  unfold pushFlag; split
+  · exact ⟨h.imports, h.ton, h.slotH, h.vars, h.consts⟩
+  · exact h
+
+theorem popFlag_ok (o : Opts) (st : St) (h : StOk st) : StOk (popFlag o st).2 := by
+  unfold popFlag; split
+  · split
+    · exact h
+    · exact ⟨h.imports, h.ton, h.slotH, h.vars, h.consts⟩
+  · exact h
+
+theorem stackFill_ok (st : St) (h : StOk st) : StOk (stackFill st) := ⟨h.imports, h.ton, h.slotH, h.vars, h.consts⟩
+
+structure ArOk (ar : AttrsResult) : Prop where
+  attrs : NoJsx ar.attrs = true
+  slots : optOk ar.slots = true
+  dirs : ∀ d ∈ ar.directives, dirTupleOk d = true
+
+/-- the lowered value computed for an attribute (`trAttrs`' first half), see `lowerOf` in C13 -/
+theorem AttrOk_of_Prep (a : Node) (l : Option Node) (hp : PrepAttr a = true)
+    (hl : (∃ as nameN eas eks, a = .mk .jsxAttr as [nameN, .mk .jsxElement eas eks] ∧ isDirectiveAttrName (attrNameOf nameN) = false ∧ ∃ e, l = some e ∧ NoJsx e = true)
+        ∨ (∃ as nameN eas eks, a = .mk .jsxAttr as [nameN, .mk .jsxFragment eas eks] ∧ isDirectiveAttrName (attrNameOf nameN) = false ∧ ∃ e, l = some e ∧ NoJsx e = true)
+        ∨ (l = none ∧ (∀ as nameN eas eks, a = .mk .jsxAttr as [nameN, .mk .jsxElement eas eks] → isDirectiveAttrName (attrNameOf nameN) = true)
+                    ∧ (∀ as nameN eas eks, a = .mk .jsxAttr as [nameN, .mk .jsxFragment eas eks] → isDirectiveAttrName (attrNameOf nameN) = true))) :
+    AttrOk a l := by
+  rcases hl with ⟨as, nameN, eas, eks, rfl, hnd, e, rfl, he⟩ | ⟨as, nameN, eas, eks, rfl, hnd, e, rfl, he⟩ | ⟨rfl, h1, h2⟩
+  · exact Or.inl ⟨as, nameN, _, rfl, he, Or.inr (Or.inr ⟨hnd, e, rfl⟩)⟩
+  · exact Or.inl ⟨as, nameN, _, rfl, he, Or.inr (Or.inr ⟨hnd, e, rfl⟩)⟩
+  · unfold PrepAttr at hp
+    split at hp
+    · rename_i as nameN v
+      refine Or.inl ⟨as, nameN, v, rfl, rfl, ?_⟩
+      split at hp
+      · rename_i hd; exact Or.inl ⟨hd, rfl, hp⟩
+      · rename_i hnd
+        have hnd' : isDirectiveAttrName (attrNameOf nameN) = false := by simpa using hnd
+        split at hp
+        · rename_i eas eks; have := h1 _ _ _ _ rfl; rw [hnd'] at this; cases this
+        · rename_i eas eks; have := h2 _ _ _ _ rfl; rw [hnd'] at this; cases this
+        · exact Or.inr (Or.inl ⟨hnd', rfl, hp⟩)
+    · rename_i as e; exact Or.inr (Or.inl ⟨as, e, rfl, hp⟩)
+    · cases hp
+
+
+mutual
+theorem trElement_ok (o : Opts) (env : Env) : ∀ (n : Node) (st : St), PrepEl n = true → n.kind = .jsxElement → StOk st →
+    NoJsx (trElement o env n st).1 = true ∧ StOk (trElement o env n st).2
+  | .mk k as ks, st, hp, hk, hst => by
+    unfold trElement
+    split
+    next st' _ _ a0 a1 nameN a2 attrs x a3 children y heq =>
+      have hs1 : sizeOf attrs < 1 + sizeOf k + sizeOf as + sizeOf ks := by
+        have := congrArg sizeOf heq; simp at this; omega
+      have hs2 : sizeOf children < 1 + sizeOf k + sizeOf as + sizeOf ks := by
+        have := congrArg sizeOf heq; simp at this; omega
+      rw [heq] at hp
+      simp only [PrepEl, Bool.and_eq_true] at hp
+      obtain ⟨⟨htag, hattrs⟩, hkids⟩ := hp
+      simp only
+      have hA := transformAttrs_ok o env attrs (isComponent env nameN) (pushFlag o st') hattrs (pushFlag_ok o st' hst)
+      generalize transformAttrs o env attrs (isComponent env nameN) (pushFlag o st') = r1 at hA ⊢
+      obtain ⟨ar, st2⟩ := r1
+      simp only at hA ⊢
+      have hT := transformTag_ok env nameN st2 htag hA.2
+      generalize transformTag env nameN st2 = r2 at hT ⊢
+      obtain ⟨tag, st3⟩ := r2
+      simp only at hT ⊢
+      have hC := trChildList_ok o env children st3 hkids hT.2
+      generalize trChildList o env children st3 = r3 at hC ⊢
+      obtain ⟨elems, st4⟩ := r3
+      simp only at hC ⊢
+      have hP := popFlag_ok o st4 hC.2
+      generalize popFlag o st4 = r4 at hP ⊢
+      obtain ⟨slotFlag, st5⟩ := r4
+      simp only at hP ⊢
+      have hF := finishChildren_ok o elems (isComponent env nameN) ar.slots slotFlag st5 hC.1 hA.1.slots hP
+      generalize finishChildren o elems (isComponent env nameN) ar.slots slotFlag st5 = r5 at hF ⊢
+      obtain ⟨kids, st6⟩ := r5
+      simp only at hF ⊢
+      -- the argument list, with or without the hints
+      have hargs : NoJsxL (if o.optimize = true then
+            match ar.dynamicProps with
+            | some dp =>
+              if (!dp.isEmpty) = true then
+                (if (ar.patchFlags != 0) = true then [nArg tag, nArg ar.attrs, nArg kids] ++ [nArg (nNum ar.patchFlags)]
+                  else [nArg tag, nArg ar.attrs, nArg kids]) ++ [nArg (nArray (dp.map fun p => nArg (nStr p)))]
+              else if (ar.patchFlags != 0) = true then [nArg tag, nArg ar.attrs, nArg kids] ++ [nArg (nNum ar.patchFlags)]
+                else [nArg tag, nArg ar.attrs, nArg kids]
+            | none => if (ar.patchFlags != 0) = true then [nArg tag, nArg ar.attrs, nArg kids] ++ [nArg (nNum ar.patchFlags)]
+                else [nArg tag, nArg ar.attrs, nArg kids]
+          else [nArg tag, nArg ar.attrs, nArg kids]) = true := by
+        have hb : NoJsxL [nArg tag, nArg ar.attrs, nArg kids] = true := by simp [hT.1, hA.1.attrs, hF.1]
+        have hdp : ∀ dp : List String, NoJsxL (dp.map fun p => nArg (nStr p)) = true := fun dp => NoJsxL_map _ _ (by intro x _; simp)
+        split
+        · split
+          · split <;> split <;> simp_all
+          · split <;> simp_all
+        · exact hb
+      generalize (if o.optimize = true then
+            match ar.dynamicProps with
+            | some dp =>
+              if (!dp.isEmpty) = true then
+                (if (ar.patchFlags != 0) = true then [nArg tag, nArg ar.attrs, nArg kids] ++ [nArg (nNum ar.patchFlags)]
+                  else [nArg tag, nArg ar.attrs, nArg kids]) ++ [nArg (nArray (dp.map fun p => nArg (nStr p)))]
+              else if (ar.patchFlags != 0) = true then [nArg tag, nArg ar.attrs, nArg kids] ++ [nArg (nNum ar.patchFlags)]
+                else [nArg tag, nArg ar.attrs, nArg kids]
+            | none => if (ar.patchFlags != 0) = true then [nArg tag, nArg ar.attrs, nArg kids] ++ [nArg (nNum ar.patchFlags)]
+                else [nArg tag, nArg ar.attrs, nArg kids]
+          else [nArg tag, nArg ar.attrs, nArg kids]) = args at hargs ⊢
+      have hG := getPragma_ok o st6 hF.2
+      generalize getPragma o st6 = r6 at hG ⊢
+      obtain ⟨pragma, st7⟩ := r6
+      simp only at hG ⊢
+      split
+      · exact ⟨by simp [hG.1, hargs], hG.2⟩
+      · have hW := importFromVue_ok st7 "withDirectives" hG.2
+        have hD := dirEntries_ok nameN attrs ar.directives (st7.importFromVue "withDirectives").2 hA.1.dirs hW.2
+        exact ⟨by simp [hW.1, hG.1, hargs, hD.1], hD.2⟩
+    next hne =>
+      exfalso
+      unfold PrepEl at hp
+      split at hp
+      · rename_i heq; exact hne _ _ _ _ _ _ _ _ _ heq
+      · rename_i heq; injection heq with h1; simp only [Node.kind] at hk; rw [hk] at h1; cases h1
+      · cases hp
+termination_by n => 2 * sizeOf n
+theorem trFragment_ok (o : Opts) (env : Env) : ∀ (n : Node) (st : St), PrepEl n = true → n.kind = .jsxFragment → StOk st →
+    NoJsx (trFragment o env n st).1 = true ∧ StOk (trFragment o env n st).2
+  | .mk k as ks, st, hp, hk, hst => by
+    unfold trFragment
+    split
+    next st' _ _ a0 x a1 children y heq =>
+      have hs2 : sizeOf children < 1 + sizeOf k + sizeOf as + sizeOf ks := by
+        have := congrArg sizeOf heq; simp at this; omega
+      rw [heq] at hp
+      simp only [PrepEl] at hp
+      simp only
+      have hG := getPragma_ok o (pushFlag o st') (pushFlag_ok o st' hst)
+      generalize getPragma o (pushFlag o st') = r1 at hG ⊢
+      obtain ⟨pragma, st2⟩ := r1
+      simp only at hG ⊢
+      have hI := importFromVue_ok st2 FRAGMENT hG.2
+      generalize st2.importFromVue FRAGMENT = r2 at hI ⊢
+      obtain ⟨frag, st3⟩ := r2
+      simp only at hI ⊢
+      have hC := trChildList_ok o env children st3 hp hI.2
+      generalize trChildList o env children st3 = r3 at hC ⊢
+      obtain ⟨elems, st4⟩ := r3
+      simp only at hC ⊢
+      have hP := popFlag_ok o st4 hC.2
+      generalize popFlag o st4 = r4 at hP ⊢
+      obtain ⟨slotFlag, st5⟩ := r4
+      simp only at hP ⊢
+      have hF := finishChildren_ok o elems false none slotFlag st5 hC.1 rfl hP
+      exact ⟨by simp [hG.1, hI.1, hF.1], hF.2⟩
+    next hne =>
+      exfalso
+      unfold PrepEl at hp
+      split at hp
+      · rename_i heq; injection heq with h1; simp only [Node.kind] at hk; rw [hk] at h1; cases h1
+      · rename_i heq; exact hne _ _ _ _ _ heq
+      · cases hp
+termination_by n => 2 * sizeOf n
+theorem trAttrs_ok (o : Opts) (env : Env) (c : Bool) : ∀ (attrs : List Node) (acc : AttrAcc) (st : St),
+    PrepAttrs attrs = true → AccOk acc → StOk st →
+    AccOk (trAttrs o env c attrs acc st).1 ∧ StOk (trAttrs o env c attrs acc st).2
+  | [], acc, st, _, hacc, hst => by simp [trAttrs, hacc, hst]
+  | a :: rest, acc, st, hp, hacc, hst => by
+    simp only [PrepAttrs, Bool.and_eq_true] at hp
+    have ih : ∀ ac s, AccOk ac → StOk s → AccOk (trAttrs o env c rest ac s).1 ∧ StOk (trAttrs o env c rest ac s).2 :=
+      fun ac s h1 h2 => trAttrs_ok o env c rest ac s hp.2 h1 h2
+    rw [trAttrs.eq_def]
+    simp only
+    have fin : ∀ l st1, AttrOk a l → StOk st1 →
+        AccOk (trAttrs o env c rest (attrStep o c a l acc st1).1 (attrStep o c a l acc st1).2).1
+        ∧ StOk (trAttrs o env c rest (attrStep o c a l acc st1).1 (attrStep o c a l acc st1).2).2 := by
+      intro l st1 hok hst1
+      have hstep := attrStep_ok o c a l acc st1 hok hacc hst1
+      exact ih _ _ hstep.1 hstep.2
+    split
+    next aas nameN eas eks =>
+      split
+      · rename_i hd
+        apply fin none st _ hst
+        apply AttrOk_of_Prep _ _ hp.1
+        refine Or.inr (Or.inr ⟨rfl, ?_, ?_⟩)
+        · intro as' n' ea' ek' h; injection h with _ _ h; simp only [List.cons.injEq, and_true] at h; obtain ⟨rfl, _⟩ := h; exact hd
+        · intro as' n' ea' ek' h; injection h with _ _ h; simp only [List.cons.injEq, and_true] at h; obtain ⟨_, h⟩ := h; injection h with h; cases h
+      · rename_i hnd
+        have hnd' : isDirectiveAttrName (attrNameOf nameN) = false := by simpa using hnd
+        have hs : sizeOf (Node.mk K.jsxElement eas eks) < sizeOf (Node.mk K.jsxAttr aas [nameN, Node.mk K.jsxElement eas eks] :: rest) := by simp; omega
+        have hpe : PrepEl (.mk .jsxElement eas eks) = true := by
+          have := hp.1; simp only [PrepAttr, hnd', Bool.false_eq_true, if_false] at this; exact this
+        have hE := trElement_ok o env (.mk .jsxElement eas eks) st hpe rfl hst
+        apply fin _ _ _ hE.2
+        exact AttrOk_of_Prep _ _ hp.1 (Or.inl ⟨aas, nameN, eas, eks, rfl, hnd', _, rfl, hE.1⟩)
+    next aas nameN eas eks =>
+      split
+      · rename_i hd
+        apply fin none st _ hst
+        apply AttrOk_of_Prep _ _ hp.1
+        refine Or.inr (Or.inr ⟨rfl, ?_, ?_⟩)
+        · intro as' n' ea' ek' h; injection h with _ _ h; simp only [List.cons.injEq, and_true] at h; obtain ⟨_, h⟩ := h; injection h with h; cases h
+        · intro as' n' ea' ek' h; injection h with _ _ h; simp only [List.cons.injEq, and_true] at h; obtain ⟨rfl, _⟩ := h; exact hd
+      · rename_i hnd
+        have hnd' : isDirectiveAttrName (attrNameOf nameN) = false := by simpa using hnd
+        have hs : sizeOf (Node.mk K.jsxFragment eas eks) < sizeOf (Node.mk K.jsxAttr aas [nameN, Node.mk K.jsxFragment eas eks] :: rest) := by simp; omega
+        have hpe : PrepEl (.mk .jsxFragment eas eks) = true := by
+          have := hp.1; simp only [PrepAttr, hnd', Bool.false_eq_true, if_false] at this; exact this
+        have hE := trFragment_ok o env (.mk .jsxFragment eas eks) st hpe rfl hst
+        apply fin _ _ _ hE.2
+        exact AttrOk_of_Prep _ _ hp.1 (Or.inr (Or.inl ⟨aas, nameN, eas, eks, rfl, hnd', _, rfl, hE.1⟩))
+    next h1 h2 =>
+      apply fin none st _ hst
+      apply AttrOk_of_Prep _ _ hp.1
+      refine Or.inr (Or.inr ⟨rfl, ?_, ?_⟩)
+      · intro as' n' ea' ek' h; exact absurd h (h1 _ _ _ _)
+      · intro as' n' ea' ek' h; exact absurd h (h2 _ _ _ _)
+termination_by attrs => 2 * sizeOf attrs
+theorem transformAttrs_ok (o : Opts) (env : Env) : ∀ (attrs : List Node) (c : Bool) (st : St), PrepAttrs attrs = true → StOk st →
+    ArOk (transformAttrs o env attrs c st).1 ∧ StOk (transformAttrs o env attrs c st).2
+  | [], c, st, _, hst => by
+    simp only [transformAttrs]
+    exact ⟨⟨by simp, rfl, by simp⟩, hst⟩
+  | a :: rest, c, st, hp, hst => by
+    have h := trAttrs_ok o env c (a :: rest) {} st hp ⟨rfl, rfl, rfl, by simp⟩ hst
+    simp only [transformAttrs]
+    have hA := assembleProps_ok o (trAttrs o env c (a :: rest) {} st).1.props (trAttrs o env c (a :: rest) {} st).1.mergeArgs
+      (trAttrs o env c (a :: rest) {} st).2 h.1.props h.1.mergeArgs h.2
+    exact ⟨⟨hA.1, h.1.slots, h.1.dirs⟩, hA.2⟩
+termination_by attrs => 2 * sizeOf attrs + 1
+theorem trChildList_ok (o : Opts) (env : Env) : ∀ (cs : List Node) (st : St), PrepKids cs = true → StOk st →
+    NoJsxL (trChildList o env cs st).1 = true ∧ StOk (trChildList o env cs st).2
+  | [], st, _, hst => by simp [trChildList, hst]
+  | c :: rest, st, hp, hst => by
+    simp only [PrepKids, Bool.and_eq_true] at hp
+    have ih : ∀ s, StOk s → NoJsxL (trChildList o env rest s).1 = true ∧ StOk (trChildList o env rest s).2 :=
+      fun s h => trChildList_ok o env rest s hp.2 h
+    rw [trChildList.eq_def]
+    simp only
+    split
+    · -- text
+      split
+      · exact ih st hst
+      · simp only
+        have hI := importFromVue_ok st "createTextVNode" hst
+        have hR := ih _ hI.2
+        exact ⟨by simp [hI.1, hR.1], hR.2⟩
+    · -- an expression container
+      rename_i as e
+      split
+      · exact ih st hst
+      · rename_i hne
+        have he : NoJsx e = true := by
+          have := hp.1
+          unfold PrepKid at this
+          split at this <;> simp_all
+        simp only
+        have hst' : StOk (if (o.optimize && isIdent e && !isUnresolvedIdent e) = true then stackFill st else st) := by
+          split
+          · exact stackFill_ok st hst
+          · exact hst
+        have hR := ih _ hst'
+        exact ⟨by simpa [he] using hR.1, hR.2⟩
+    · -- a spread child
+      rename_i as e
+      have he : NoJsx e = true := by
+        have := hp.1
+        simpa [PrepKid] using this
+      simp only
+      have hst' : StOk (if (o.optimize && isIdent e && !isUnresolvedIdent e) = true then stackFill st else st) := by
+        split
+        · exact stackFill_ok st hst
+        · exact hst
+      have hR := ih _ hst'
+      exact ⟨by simpa [he] using hR.1, hR.2⟩
+    next as' ks' =>
+      have hs : sizeOf (Node.mk K.jsxElement as' ks') < sizeOf (Node.mk K.jsxElement as' ks' :: rest) := by simp; omega
+      have hE := trElement_ok o env (.mk .jsxElement as' ks') st (by simpa [PrepKid] using hp.1) rfl hst
+      simp only
+      have hR := ih _ hE.2
+      exact ⟨by simp [hE.1, hR.1], hR.2⟩
+    next as' ks' =>
+      have hs : sizeOf (Node.mk K.jsxFragment as' ks') < sizeOf (Node.mk K.jsxFragment as' ks' :: rest) := by simp; omega
+      have hE := trFragment_ok o env (.mk .jsxFragment as' ks') st (by simpa [PrepKid] using hp.1) rfl hst
+      simp only
+      have hR := ih _ hE.2
+      exact ⟨by simp [hE.1, hR.1], hR.2⟩
+    · -- anything else contributes nothing (and is flagged)
+      have hR := ih st hst
+      exact ⟨hR.1, panic_ok _ _ hR.2⟩
+termination_by cs => 2 * sizeOf cs
+end
+
 end VueJsx
